@@ -183,13 +183,56 @@ def check_cat(params):
     return out
 
 
+def check_constructors(params):
+    """Static constructors of the semantic classes: cups, caps, swaps, spiders, transposes of
+    identities -- every type of length <= 3 over the class's atoms."""
+    cls = params["cls"]
+    k = build.kit(cls)
+    atoms = {"tensor": [2, 3], "circuit": ["bit", "qubit"], "zx": [1]}[cls]
+    out, n = [], 0
+    D = k.Diagram
+    for m in range(0, 4):
+        for t in itertools.product(atoms, repeat=m):
+            ty = k.ty(list(t))
+            calls = [("cups(t, t.r)", lambda ty=ty: D.cups(ty, ty.r)), ("caps(t.r, t)", lambda ty=ty: D.caps(ty.r, ty)),
+                     ("cups(t.l, t)", lambda ty=ty: D.cups(ty.l, ty)), ("caps(t, t.l)", lambda ty=ty: D.caps(ty, ty.l)),
+                     ("id(t).transpose()", lambda ty=ty: D.id(ty).transpose()),
+                     ("id(t).transpose(left=True)", lambda ty=ty: D.id(ty).transpose(left=True))]
+            for m2 in range(0, 3):
+                for t2 in itertools.product(atoms, repeat=m2):
+                    ty2 = k.ty(list(t2))
+                    if cls == "zx":
+                        calls.append(("swap(%d, %d)" % (len(t), len(t2)), lambda a=len(t), b=len(t2): D.swap(a, b)))
+                    else:
+                        calls.append(("swap(%s, %s)" % (t, t2), lambda ty=ty, ty2=ty2: D.swap(ty, ty2)))
+            for label, thunk in calls:
+                n += 1
+                try:
+                    v = thunk()
+                except Exception:
+                    continue
+                errs = ref.scan(v)
+                if errs:
+                    out.append((_sig("constructor-illtyped", [cls, label, list(t)]),
+                                "[%s] %s with t=%s is ill-typed: %s" % (cls, label, t, errs[:2])))
+                elif "cups" in label and (len(v.cod) != 0 or len(v.dom) != 2 * len(t)):
+                    out.append((_sig("constructor-type", [cls, label, list(t)]), "[%s] %s with t=%s : %s -> %s"
+                                % (cls, label, t, v.dom, v.cod)))
+                elif "caps" in label and (len(v.dom) != 0 or len(v.cod) != 2 * len(t)):
+                    out.append((_sig("constructor-type", [cls, label, list(t)]), "[%s] %s with t=%s : %s -> %s"
+                                % (cls, label, t, v.dom, v.cod)))
+    params["_n"] = n
+    return out
+
+
 def _norm(r):
     def t(x):
         return tuple(t(y) for y in x) if isinstance(x, (list, tuple)) else x
     return t(r)
 
 
-CASES = {"class_chain": safe("C01", check_chain), "cat_ops": safe("C01", check_cat)}
+CASES = {"class_chain": safe("C01", check_chain), "cat_ops": safe("C01", check_cat),
+         "constructors": safe("C01", check_constructors)}
 
 
 def _explore(shard):
@@ -252,4 +295,11 @@ def run(ctx):
     plan.append("cat: %d arrows" % len(cats))
     for p in pmap(_cat_worker, build.shards(cats, 16)):
         ctx.merge(p)
+    for cls in ("tensor", "circuit", "zx"):
+        params = dict(cls=cls)
+        res = CASES["constructors"](params)
+        ctx.count("transitions", params.pop("_n", 0))
+        for sig, msg in res:
+            ctx.violation(sig, msg, "constructors", params)
+    plan.append("cups/caps/swaps/transposes of all types of length <= 3 in tensor, circuit, zx")
     ctx.bounds["class_sections"] = plan
